@@ -243,8 +243,17 @@ class Rig:
         d = self.t._devices[urn]
         if rs < d.resets or lc < 0 or la < 0:
             raise ValueError('state not reachable through the public interface: resets=%r last_comms=%r last_attempt=%r' % (rs, lc, la))
-        while d.resets < rs:
+        stuck = 0
+        while d.resets < rs and stuck < 3:
+            was = d.resets
+            # (a device with a contact on record: `clear_last` is then the full operation whatever shortcut it takes when there
+            # is nothing to clear)
+            if stuck:
+                d.last_comms, d.last_attempt = 1, 1
             d.clear_last()
+            stuck = stuck + 1 if d.resets == was else 0
+        if d.resets < rs:
+            raise ValueError('clear_last() does not advance the restart counter (resets=%r, wanted %r)' % (d.resets, rs))
         d.last_comms, d.last_attempt, d.flag_reset = lc, la, bool(fl)
         d.clear_stash()
         d.append_stash([rec(x) for x in c], [rec(x) for x in h], [rec(x) for x in u])
